@@ -331,7 +331,7 @@ func init() {
 						continue
 					}
 					doc2 := doc.clone()
-					c08PruneDoc(d2, srcRef(d2.Root), &doc2, 0)
+					c08PruneDocKeeping(d2, srcRef(d2.Root), &doc2, 0, "zzUndeclared")
 					fmt.Fprintf(out, "%s\t%s\t%s\t%s\t%s\n", f[0], d2.sexp(), f[2], f[3], doc2.json())
 				}
 			}
